@@ -467,7 +467,12 @@ func (c *compiler) findTypedef(y *Type, parent Definition, qualifiedIdent string
 				// issue #50 - submodules can reference types in parent and in any
 				// other submodule w/o prefix
 				if m, isModule := p.(*Module); isModule && m.belongsTo != nil {
-					p = m.Parent().(Definition)
+					// not loaded thru an include, there is no module it belongs to
+					if main, loadedByInclude := m.Parent().(Definition); loadedByInclude {
+						p = main
+					} else {
+						p = nil
+					}
 				}
 			}
 		}
